@@ -53,6 +53,7 @@ def generate(tier, seed):
         selform = rng.choice('ANNCDEF')
         sel = [selform, float(rng.randint(0, nm + 1)) if selform == 'N' else rng.dyadic(0, 30, 8) + 2.0 ** -12]
         cases.append(dict(writer=writer, form=form, sel=sel, table=dict(names=names, cols=cols), additional=additional if writer in ('params', 'ranges', 'filter_table', 'plot1d', 'plot2d') else None,
+                          copied=rng.choice([None, None, 'deep', 'shallow']),
                           plot_add=bool(additional) and writer.startswith('plot') and rng.random() < 0.6,      # the plotted quantity is one of the additional parameters
                           sources=sources))
     return cases
@@ -97,6 +98,11 @@ def impl(case):
             arg = infos[0]
         else:
             arg = infos
+        if case.get('copied') and case['form'] != 'file':
+            # the results reach the post-processing function as copies (copy.copy / copy.deepcopy of a result is a result)
+            import copy
+            cp = copy.deepcopy if case['copied'] == 'deep' else copy.copy
+            arg = cp(arg) if case['form'] == 'object' else [cp(i) for i in arg]
         sel = (case['sel'][0], case['sel'][1])
         add = case['additional'] or {}
         out = dict(sources=[])
